@@ -156,3 +156,25 @@ package isaac
 //@   callsite ProposalByPoint requires locked(p.l) && a0 == point && a1 == p.local.Address() && a2 == previousBlock
 //@   callsite SetProposal requires locked(p.l) && pbpfound == 0
 //@   ensures r1 == nil ==> r0 != nil
+
+// ---- C11: a block is saved only for the agreed manifest, once per height ---------------
+//
+// The processor hands the block to its writer only when the manifest it computed
+// is the one the ACCEPT majority voted for.
+//@ func (*DefaultProposalProcessor).save
+//@   prop C11
+//@   requires p != nil && avp != nil && p.writer != nil && p.Logging != nil && avp.BallotMajority() != nil
+//@   callsite Save requires p.manifest != nil && p.manifest.Hash().Equal(avp.BallotMajority().NewBlock())
+//@   callsite SetACCEPTVoteproof requires a1 == avp && p.manifest != nil && p.manifest.Hash().Equal(avp.BallotMajority().NewBlock())
+
+// The processors save under their lock, only the processed proposal that was
+// asked for, and only for a height above every height saved before.
+//@ func (*ProposalProcessors).Save
+//@   prop C11
+//@   requires pps != nil && avp != nil && facthash != nil && pps.Logging != nil
+//@   requires pps.p != nil ==> pps.p.Proposal() != nil && pps.p.Proposal().Fact() != nil
+//@   modifies pps.previousSaved, pps.p, *
+//@   callsite Save requires locked(pps.l) && a1 == avp && avp.Point().Height() > old(pps.previousSaved) && pps.previousSaved == avp.Point().Height() && recv.Proposal().Fact().Hash().Equal(facthash)
+//@   ensures [monotonic] pps.previousSaved >= old(pps.previousSaved)
+//@   ensures [advance] r1 == nil ==> avp.Point().Height() > old(pps.previousSaved) && pps.previousSaved == avp.Point().Height()
+//@ writers ProposalProcessors.previousSaved (C11) save NewProposalProcessors
